@@ -544,7 +544,7 @@ func (c *cl) quiesceMaybe() {
 }
 
 // ---- scenario: follower (returning or new) restored by state transfer (C09)
-func (c *cl) scenarioRestore(newNode bool, changeLeader bool, one bool, hist, away string) error {
+func (c *cl) scenarioRestore(newNode bool, changeLeader bool, one bool, hist, away string, second bool) error {
 	// start 2 nodes (new-node case) or 3
 	if err := c.startNode(1, true, nil); err != nil {
 		return err
@@ -639,7 +639,7 @@ func (c *cl) scenarioRestore(newNode bool, changeLeader bool, one bool, hist, aw
 			break
 		}
 		c.quiesce()
-		err := l.Raft.VerifLeadershipTransfer()
+		err := l.Raft.VerifLeadershipTransferTo("node3", c.nodes[2].Raft.VerifRaftAddr())
 		c.emit(trace.Ev{"a": "transfer", "n": l.ID, "err": err != nil})
 		time.Sleep(300 * time.Millisecond)
 	}
@@ -648,6 +648,113 @@ func (c *cl) scenarioRestore(newNode bool, changeLeader bool, one bool, hist, aw
 		c.add(b, s)
 	}
 	c.checkAll(false)
+	// the node that was brought up to date by state transfer now serves one itself: node 2 comes
+	// back with an empty disk (replaced machine) and has to be given the whole log by the leader
+	if l := c.leader(); second && l != nil && l.ID == 3 && c.nodes[1].Up {
+		c.stopNode(2)
+		os.RemoveAll(c.nodes[1].Dir)
+		c.emit(trace.Ev{"a": "wipe", "n": 2})
+		b, s := c.randBulk()
+		c.add(b, s)
+		c.quiesce()
+		for _, id := range []int{1, 3} {
+			err := c.nodes[id-1].Raft.VerifForceSnapshot()
+			c.emit(trace.Ev{"a": "snapshot", "n": id, "err": err != nil})
+		}
+		c.emit(trace.Ev{"a": "rejoin", "n": 2})
+		if err := c.startNode(2, false, c.seeds(2)); err != nil {
+			c.emit(trace.Ev{"a": "info", "what": "wiped node failed to start: " + truncate(err.Error(), 200)})
+			c.emit(trace.Ev{"a": "noconverge", "n": 2})
+			return nil
+		}
+		if !c.converge(60 * time.Second) {
+			c.emit(trace.Ev{"a": "noconverge", "n": 2})
+		}
+		c.checkAll(false)
+		b, s = c.randBulk()
+		c.add(b, s)
+		c.checkAll(false)
+	}
+	return nil
+}
+
+// ---- scenario: clean stop while a query is being answered (C08): the gated store parks a
+// membership query inside its history proof (a read of the history table on a node whose caches
+// are cold), then the node is stopped. Shutdown must wait for the query (or make it fail cleanly):
+// it must not complete underneath it, and the process must survive.
+func (c *cl) scenarioStopLoad(rounds int) error {
+	if err := c.startNode(1, true, nil); err != nil {
+		return err
+	}
+	n := c.nodes[0]
+	if !qcluster.WaitFor(15*time.Second, n.Raft.IsLeader) {
+		return fmt.Errorf("seed did not become leader")
+	}
+	for i := 0; i < 6+c.rng.Intn(10); i++ {
+		b, s := c.randBulk()
+		c.add(b, s)
+	}
+	for r := 0; r < rounds; r++ {
+		// cold caches: restart first
+		c.stopNode(1)
+		if err := c.startNode(1, false, nil); err != nil {
+			return err
+		}
+		if !qcluster.WaitFor(15*time.Second, n.Raft.IsLeader) {
+			return fmt.Errorf("node did not become leader again")
+		}
+		nlog := uint64(len(c.log))
+		i := uint64(c.rng.Int63n(int64(nlog)))
+		d := c.log[i]
+		if d == nil {
+			continue
+		}
+		q := i + uint64(c.rng.Int63n(int64(nlog-i)))
+		release := n.Gate.HoldGet(storage.HistoryTable)
+		var fin func()
+		qdone := make(chan struct{})
+		go func() { fin = c.memberQ(1, d, q, r%2 == 0, 0); close(qdone) }()
+		parked := false
+		select {
+		case <-n.Gate.GetHeld:
+			parked = true
+		case <-qdone:
+		case <-time.After(5 * time.Second):
+		}
+		if !parked {
+			n.Gate.CancelGet()
+			close(release)
+			<-qdone
+			fin()
+			c.emit(trace.Ev{"a": "info", "what": "query did not read the history table: nothing to park"})
+			continue
+		}
+		c.emit(trace.Ev{"a": "info", "what": "query parked inside its history proof; stopping the node"})
+		sdone := make(chan struct{})
+		go func() { c.stopNode(1); close(sdone) }()
+		early := false
+		select {
+		case <-sdone:
+			early = true
+		case <-time.After(1500 * time.Millisecond):
+		}
+		if early {
+			c.emit(trace.Ev{"a": "stopearly", "n": 1})
+		}
+		close(release)
+		<-qdone
+		<-sdone
+		fin()
+		if err := c.startNode(1, false, nil); err != nil {
+			return err
+		}
+		if !qcluster.WaitFor(15*time.Second, n.Raft.IsLeader) {
+			return fmt.Errorf("node did not become leader again")
+		}
+		b, s := c.randBulk()
+		c.add(b, s)
+		c.checkAll(false)
+	}
 	return nil
 }
 
@@ -754,6 +861,22 @@ func (c *cl) scenarioWindow(rounds int) error {
 	}
 	for r := 0; r < rounds; r++ {
 		bulk, single := c.randBulk()
+		// proofs obtained BEFORE the insertion and kept by the caller while it is applied: they
+		// are encoded and verified afterwards and must still be the proofs that were returned
+		retained := []func(){}
+		if pre := uint64(len(c.log)); pre > 0 {
+			for t := 0; t < 3; t++ {
+				i := uint64(c.rng.Int63n(int64(pre)))
+				if t == 0 {
+					i = pre - 1
+				}
+				if d := c.log[i]; d != nil {
+					retained = append(retained, c.memberQ(1, d, i+uint64(c.rng.Int63n(int64(pre-i))), t == 1, len(bulk)))
+				}
+			}
+			e := uint64(c.rng.Int63n(int64(pre)))
+			retained = append(retained, c.incrQ(1, uint64(c.rng.Int63n(int64(e+1))), e, len(bulk)))
+		}
 		var release chan struct{}
 		done := make(chan bool, 1)
 		if r%2 == 1 {
@@ -769,6 +892,9 @@ func (c *cl) scenarioWindow(rounds int) error {
 				n.Gate.CancelGet()
 				close(release)
 				<-done
+				for _, f := range retained {
+					f()
+				}
 				continue
 			}
 		} else {
@@ -846,6 +972,9 @@ func (c *cl) scenarioWindow(rounds int) error {
 		}
 		// the acknowledgement is recorded now: verify what the queries returned inside the window
 		for _, f := range finishers {
+			f()
+		}
+		for _, f := range retained {
 			f()
 		}
 		if c.rng.Intn(2) == 0 {
@@ -1146,13 +1275,15 @@ func clusterDriver(args []string) error {
 				}
 				v := table[(fi*runs+run+int(*seed))%len(table)]
 				tw.Emit(trace.Ev{"a": "info", "what": fmt.Sprintf("restore variant new=%v leaderchange=%v one=%v hist=%s away=%s", v.newNode, v.changeLeader, v.one, v.hist, v.away)})
-				serr = c.scenarioRestore(v.newNode, v.changeLeader, v.one, v.hist, v.away)
+				serr = c.scenarioRestore(v.newNode, v.changeLeader, v.one, v.hist, v.away, (fi*runs+run+int(*seed))%2 == 0)
 			case "backup":
 				rounds := 10
 				if thorough {
 					rounds = 30
 				}
 				serr = c.scenarioBackup(rounds)
+			case "stopload":
+				serr = c.scenarioStopLoad(3)
 			case "writers":
 				rounds := 1
 				if thorough {
